@@ -57,16 +57,38 @@ func mk(a attrs) D {
 		if d.UPIDType() != 0 {
 			d.SetUPID(r.Bytes(r.Intn(12)))
 		}
+		d.SetIsEventCanceled(r.Chance(4)) // not one of the conditions the relation may depend on
 	}
 	s := scte35.CreateSCTE35()
+	// the signal time is given in one of several call orders (before / after the descriptor is attached,
+	// through SetPTS or through SetAdjustPTS): the relation depends on the time, not on how it got there
+	order := 0
+	if a.Noise != 0 {
+		order = r.Intn(4)
+	}
+	if order >= 1 {
+		s.SetDescriptors([]D{d})
+	}
 	if a.HasPTS {
 		ts := scte35.CreateTimeSignalCommand()
 		ts.SetHasPTS(true)
-		ts.SetPTS(gots.PTS(a.PTS))
 		s.SetCommandInfo(ts)
-		s.SetPTS(gots.PTS(a.PTS))
+		switch order {
+		case 0, 1:
+			ts.SetPTS(gots.PTS(a.PTS))
+			s.SetPTS(gots.PTS(a.PTS))
+		case 2: // command time first, the signal time later as an adjusted time
+			ts.SetPTS(gots.PTS(a.PTS - 400))
+			s.SetPTS(gots.PTS(a.PTS - 400))
+			s.SetAdjustPTS(gots.PTS(a.PTS))
+		default: // a different time first, corrected afterwards
+			s.SetPTS(gots.PTS(a.PTS + 77))
+			s.SetPTS(gots.PTS(a.PTS))
+		}
 	}
-	s.SetDescriptors([]D{d})
+	if order == 0 {
+		s.SetDescriptors([]D{d})
+	}
 	return d
 }
 
